@@ -40,8 +40,45 @@ type Unit struct {
 	Key     string             // unique path-like key, e.g. "o0/p3"
 	Prog    *schemagen.Program // Files[0] is compiled with -r
 	Options string             // thriftgo go-backend options, comma separated ("" = defaults)
-	// filled by Generate:
+	// filled by Build:
 	Types map[string]string // "<file>.<IDL name>" -> "<import alias>.New<GoName>"
+	// Alts lists every generated type per "<file>.<IDL name>" (more than one when a declared struct has
+	// the name of a synthesized <method>_args / <method>_result). Each alternative is also registered in
+	// the driver under "<file>.<IDL name>@<GoName>"; Pick chooses one by its thrift tags.
+	Alts map[string][]Alt
+}
+
+// Alt is one generated Go type whose Write announces a given IDL struct name.
+type Alt struct {
+	GoName string
+	Ctor   string   // "<import alias>.New<GoName>"
+	Tags   []string // "name,id" of every tagged field, in Go declaration order
+}
+
+// Pick returns the driver key of the generated type registered for qname whose thrift tags
+// (as a set of "name,id") equal want; without such a type (or without ambiguity) it returns qname.
+func (u *Unit) Pick(qname string, want []string) string {
+	alts := u.Alts[qname]
+	if len(alts) < 2 {
+		return qname
+	}
+	w := map[string]bool{}
+	for _, t := range want {
+		w[t] = true
+	}
+	for _, a := range alts {
+		if len(a.Tags) != len(want) {
+			continue
+		}
+		ok := true
+		for _, t := range a.Tags {
+			ok = ok && w[t]
+		}
+		if ok {
+			return qname + "@" + a.GoName
+		}
+	}
+	return qname
 }
 
 type Rejected struct {
@@ -143,6 +180,7 @@ func (b *Batch) Generate() error {
 // passed to WriteStructBegin in the Write method of the type that NewX returns.
 func (b *Batch) scan(u *Unit) (imports map[string]string, err error) {
 	u.Types = map[string]string{}
+	u.Alts = map[string][]Alt{}
 	imports = map[string]string{} // import path -> alias
 	root := filepath.Join(b.Root, "gen", u.Key)
 	err = filepath.Walk(root, func(path string, info os.FileInfo, err error) error {
@@ -158,7 +196,42 @@ func (b *Batch) scan(u *Unit) (imports map[string]string, err error) {
 		imp := "drv/" + filepath.ToSlash(rel)
 		ctors := map[string]bool{}
 		names := map[string]string{} // Go type -> IDL name
+		tags := map[string][]string{} // Go type -> "name,id" of its tagged fields
 		for _, d := range f.Decls {
+			if gd, ok := d.(*ast.GenDecl); ok && gd.Tok == token.TYPE {
+				for _, sp := range gd.Specs {
+					ts, ok := sp.(*ast.TypeSpec)
+					if !ok {
+						continue
+					}
+					stt, ok := ts.Type.(*ast.StructType)
+					if !ok {
+						continue
+					}
+					tags[ts.Name.Name] = []string{}
+					for _, fl := range stt.Fields.List {
+						if fl.Tag == nil {
+							continue
+						}
+						raw, err := strconv.Unquote(fl.Tag.Value)
+						if err != nil {
+							continue
+						}
+						i := strings.Index(raw, `thrift:"`)
+						if i < 0 {
+							continue
+						}
+						rest := raw[i+len(`thrift:"`):]
+						if j := strings.IndexByte(rest, '"'); j >= 0 {
+							parts := strings.Split(rest[:j], ",")
+							if len(parts) >= 2 {
+								tags[ts.Name.Name] = append(tags[ts.Name.Name], parts[0]+","+parts[1])
+							}
+						}
+					}
+				}
+				continue
+			}
 			fd, ok := d.(*ast.FuncDecl)
 			if !ok {
 				continue
@@ -199,7 +272,13 @@ func (b *Batch) scan(u *Unit) (imports map[string]string, err error) {
 			}
 		}
 		base := strings.TrimSuffix(filepath.Base(path), ".go")
-		for goName, idl := range names {
+		goNames := make([]string, 0, len(names))
+		for goName := range names {
+			goNames = append(goNames, goName)
+		}
+		sort.Strings(goNames)
+		for _, goName := range goNames {
+			idl := names[goName]
 			if !ctors[goName] {
 				continue
 			}
@@ -208,7 +287,11 @@ func (b *Batch) scan(u *Unit) (imports map[string]string, err error) {
 				alias = fmt.Sprintf("g%d", len(imports))
 				imports[imp] = alias
 			}
-			u.Types[base+"."+idl] = alias + ".New" + goName
+			key := base + "." + idl
+			if _, dup := u.Types[key]; !dup {
+				u.Types[key] = alias + ".New" + goName
+			}
+			u.Alts[key] = append(u.Alts[key], Alt{GoName: goName, Ctor: alias + ".New" + goName, Tags: tags[goName]})
 		}
 		return nil
 	})
@@ -271,6 +354,14 @@ func (b *Batch) Build() error {
 			parts := strings.SplitN(u.Types[k], ".", 2)
 			u.Types[k] = ren[parts[0]] + "." + parts[1]
 			fmt.Fprintf(&body, "\tRegister(%q, %q, func() interface{} { return %s() })\n", u.Key, k, u.Types[k])
+			alts := u.Alts[k]
+			for i := range alts {
+				ap := strings.SplitN(alts[i].Ctor, ".", 2)
+				alts[i].Ctor = ren[ap[0]] + "." + ap[1]
+				if len(alts) > 1 {
+					fmt.Fprintf(&body, "\tRegister(%q, %q, func() interface{} { return %s() })\n", u.Key, k+"@"+alts[i].GoName, alts[i].Ctor)
+				}
+			}
 		}
 	}
 	reg.WriteString(")\n\nfunc init() {\n")
